@@ -23,7 +23,7 @@ def host_of_result(res):
 
 HOSTS = ["a.com", "www.a.com", "WWW.A.Com", "m.a.com", "mobile.a.co.uk", "amp.a.com", "amp-x.a.com", "fr.a.com", "fr-FR.facebook.com", "www.fr.a.com", "fr.www.a.com",
          "xn--tlrama-bvab.fr", "télérama.fr", "a.co.uk", "fr.co.uk", "de.a.com.au", "forum-m.a.com", "a.com.", "blog.a.pvt.k12.ma.us", "localhost", "127.0.0.1", "fr.com", "us.gov",
-         "en.wikipedia.org", "zz.a.com", "www2.fr-be.a.org", "xn--amp-caf-hya.fr",
+         "en.wikipedia.org", "zz.a.com", "www2.fr-be.a.org", "xn--amp-caf-hya.fr", "XN--CAF-DMA.fr", "www.Xn--Caf-Dma.FR", "WWW.XN--AMP-CAF-HYA.FR",
          # case FOLDING differs from lower-casing here (sharp s, final sigma, ligature)
          "straße.de", "www.Fußball.de", "fr.ελλάς.gr", "ﬁsh.co.uk",
          # nothing but irrelevant labels (the host empties out)
@@ -43,6 +43,7 @@ def urls():
             # a punycode label that decodes to an 'amp-' prefix
             "\x00http://www.a.com", "\x00 www.a.com", " \x1f\tWWW.A.com/x\x00 ", "a.com/?u=HTTP://B.COM/x", "http://a.com/r?URL=HTTPS%3A%2F%2FWWW.B.COM",
             # an EMPTY authority (three or more slashes), with and without a scheme; a scheme-less url with a port
+            "http://XN--CAF-DMA.fr/menu", "www.Xn--caf-dma.fr", "WWW.XN--AMP-CAF-HYA.FR", "http://a.com/?url=http%3A%2F%2FXN--CAF-DMA.fr%2Fmenu",
             "///www.a.com/path", "///path", "////a//b", "http:///www.a.com/x", "//", "///", "a.com:8080", "www.a.com:8080/x",
             "a.com:8080/p?u=/x", "xn--amp-caf-hya.fr", "http://xn--amp-caf-hya.fr/x", "http://www.xn--amp-caf-hya.fr/"]
     return out
